@@ -262,6 +262,11 @@ class _AbstractNativeDataType(KeyDataType):
         return struct.Struct(self._struct_format).pack
 
     def __call__(self, item):
+        if not isinstance(item, self._required_python_type):
+            # Like the C implementation (PyLong_Check / PyFloat_Check):
+            # an object that merely converts (__index__, __float__) is
+            # not a number of this type.
+            raise TypeError(self._error_description)
         try:
             self._check_native(self._as_packable(item))
         except (struct.error, TypeError, ValueError):
@@ -324,6 +329,7 @@ class U(_AbstractUIntDataType):
 class F(_AbstractNativeDataType):
     _struct_format = 'f'
     _as_python_type = float
+    _required_python_type = (float, int)
     _error_description = 'float expected'
     multiplication_identity = 1.0
     long_name = 'Float'
